@@ -21,11 +21,9 @@ MergeRec(items0, Can(_, _), Mrg(_, _)) ==
        R(items) == LET m == SecondPass(items, Can, Mrg) IN
                    IF Len(m) < Len(items) THEN R(m) ELSE m
    IN R(items0)
-SortSet(S0, Lt(_, _)) ==
-   LET RECURSIVE R(_)
-       R(S) == IF S = {} THEN <<>> ELSE
-               LET m == CHOOSE x \in S : \A y \in S \ {x} : Lt(x, y) IN <<m>> \o R(S \ {m})
-   IN R(S0)
+\* (Lt is a strict total order on S0 wherever this is used; SetToSortSeq is evaluated by a Java override, the
+\* obvious recursive definition overflows TLC's stack beyond some 150 elements)
+SortSet(S0, Lt(_, _)) == SetToSortSeq(S0, Lt)
 \* stable insertion sort
 StableSort(s0, Lt(_, _)) ==
    LET Ins(lst, x) ==
